@@ -772,7 +772,7 @@ def randomize_params(rng, lik, noise_lo=1e-6, noise_hi=1.0, span=2.0):
 def gen_e2e08(rng, tier):
     big = tier == "thorough"
     return {"kind": "e2e08", "seed": rng.randrange(10 ** 9), "model": rng.choice(E2E_KINDS),
-            "d": rng.choice([1, 2, 3, 4]), "n": rng.choice([1, 2, 3, 5, 7] + ([10, 14] if big else [])),
+            "d": rng.choice([1, 2, 3, 4, 4, 11, 13]), "n": rng.choice([1, 2, 3, 5, 7] + ([10, 14] if big else [])),
             "m": rng.choice([1, 1, 2, 4]), "t": rng.choice([1, 3, 5]), "zero_mean": rng.random() < 0.4,
             "dups": rng.choice(["none", "none", "dup", "near"]), "small_noise": rng.random() < 0.2,
             "delta_fixed": rng.choice([None, None, 0.0, 1.0, 0.25, 0.7])}
@@ -852,6 +852,20 @@ def run_e2e08(spec):
         return np.asarray(mean(A)).reshape(-1)
 
     K = kmat(X, X)
+    # parameters written through the dictionary interface (`get_params` / `set_params`, what the searchers use to carry the
+    # surrogate's parameters from one fit to the next) are the same kernel
+    try:
+        pd0 = k.get_params()
+        k.set_params(dict(pd0))
+        K_again = kmat(X, X)
+        pd1 = k.get_params()
+        if set(pd0) != set(pd1) or any(abs(float(pd0[q]) - float(pd1[q])) > 1e-12 * max(1.0, abs(float(pd0[q]))) for q in pd0) \
+                or float(np.max(np.abs(K_again - K))) > 1e-12 * max(1.0, float(np.abs(K).max())):
+            mon.append(F("c08:kernel-params-roundtrip", f"kernel {kind} (dimension {X.shape[1]}): set_params(get_params()) changes the kernel "
+                         f"(max deviation of k(X, X): {float(np.max(np.abs(K_again - K))):.3e})", {"spec": spec}))
+        hist["params_roundtrip"] = 1
+    except NotImplementedError:
+        pass
     # composite kernels: the value must be the composition of the parts (each part is the real object)
     if kind in ("warped", "warped2", "warped_product"):
         def warp(Z):
@@ -1356,7 +1370,7 @@ class StubOutput(Predictor):
 
 def gen_heads(rng, tier):
     return {"kind": "heads", "seed": rng.randrange(10 ** 9), "head": rng.choice(["ei", "lcb", "eipu", "cei", "cei_infeasible"]),
-            "nf": rng.choice([1, 1, 2, 3, 6])}
+            "nf": rng.choice([1, 1, 2, 3, 6]), "tail": rng.random() < 0.35}
 
 
 def run_heads(spec):
@@ -1390,6 +1404,10 @@ def run_heads(spec):
         z += [rng.uniform(-1, 1), rng.uniform(0.3, 2)]
     z = np.array(z)
     best = np.array([rng.uniform(-1, 1) for _ in range(nf)]).reshape(1, -1)
+    if head == "ei" and spec.get("tail"):
+        z[nf] = rng.uniform(0.05, 0.5)
+        for j in range(nf):
+            z[j] = best[0, j] + z[nf] * rng.uniform(4.0, 9.0)
     if head == "cei_infeasible":
         best[0, rng.randrange(nf)] = np.nan
     if head == "lcb":
@@ -1421,7 +1439,24 @@ def run_heads(spec):
     if head in ("ei", "eipu", "cei", "cei_infeasible") and val > 0:
         mon.append(F("c09:ei-negative", f"head {head}: value {val} > 0 (improvement negative)", {"spec": spec}))
     worst = 0.0
-    if len(g) != len(z):
+    if head == "ei" and spec.get("tail"):
+        # far lower tail of the improvement (the mean 4-9 predictive standard deviations above the incumbent): finite
+        # differences cannot resolve these values; the closed form can - EI = mean_j sd (u_j Phi(u_j) + phi(u_j)) >= 0
+        # and d(-EI)/d mean_j = Phi(u_j) / nf, with Phi accurate in the tail (scipy's ndtr)
+        from scipy.stats import norm
+        sd = float(z[nf])
+        u = (best.reshape(-1) - z[:nf] - acq.jitter) / sd
+        closed = -float(np.mean(sd * (u * norm.cdf(u) + norm.pdf(u))))
+        hist["ei_tail_points"] = 1
+        if abs(val - closed) > 1e-6 * abs(closed):
+            mon.append(F("c09:ei-not-closed-form", f"EI head {val!r} differs from the closed form {closed!r} in the lower tail (u = {u.tolist()})",
+                         {"spec": spec}))
+        gm = g[:nf]
+        want = norm.cdf(u) / nf
+        if np.any(np.abs(gm - want) > 1e-6 * np.abs(want)):
+            mon.append(F("c09:head-gradient-not-derivative", f"head ei, lower tail: d h / d mean = {gm.tolist()}, the derivative Phi(u)/nf is "
+                                                             f"{want.tolist()} (u = {u.tolist()})", {"spec": spec}))
+    elif len(g) != len(z):
         mon.append(F("c09:head-gradient-shape", f"head {head}: {len(g)} gradient entries for {len(z)} moments", {"spec": spec}))
     else:
         for i in range(len(z)):
